@@ -15,6 +15,17 @@ def context(path, node):
     for i, anc in enumerate(path):
         nxt = chain[i + 1]
         k = anc.get("k")
+        if k == "Block":
+            # guard clauses: after `if c { <always leaves> }` (no else) the rest of the block runs under !c
+            for s in anc["stmts"]:
+                e = s.get("e") if s["k"] == "Expr" else s.get("init")
+                if e is not None and (e is nxt or contains(e, nxt)):
+                    break
+                if s["k"] == "Let" and s.get("else") is not None and (s["else"] is nxt or contains(s["else"], nxt)):
+                    break
+                g = peel(s["e"]) if s["k"] == "Expr" else None
+                if g is not None and g.get("k") == "If" and g.get("else") is None and not any(ex == "fall" for ex, _ in flow(g["then"], lambda x: False)):
+                    out.append(("if", g["cond"], False))
         if k == "If":
             if nxt is anc.get("then") or contains(anc["then"], nxt) and not (anc.get("else") and contains(anc["else"], nxt)):
                 if nxt is not anc["cond"] and not contains(anc["cond"], nxt):
@@ -188,7 +199,8 @@ def _has_err_return(n):
 
 def _bool_match(n):
     """`matches!(X, P)` = match X { P => true, _ => false }: returns (X, [P arms' patterns]) or None."""
-    n = peel(n)
+    from facts import unblock
+    n = unblock(n)
     if n.get("k") != "Match":
         return None
     yes = []
@@ -198,8 +210,7 @@ def _bool_match(n):
             return None
         if v[1]:
             yes.append(a["pat"])
-        elif not _pat_wild(a["pat"]):
-            return None
+        # an arm that answers false only takes shapes away (a superset of the accepted shapes is what callers need)
     return n["scrut"], yes
 
 
@@ -754,3 +765,110 @@ def row_cell_loops(f):
             if src in rowvars and idx is not None:
                 out.append((n, idx))
     return out
+
+
+def cache_decode(cf):
+    """Cache::find(&self, key): clone of self.0[(first char of key as u32) as usize], the first char taken with
+    chars().nth(0) or chars().next() and unwrapped.  -> (ok, detail)"""
+    params = [strip_ref(p["pat"]) for p in cf.thir["params"] if p.get("pat")]
+    if len(params) != 2:
+        return False, "parameters"
+    self_id, key_id = params[0].get("id"), params[1].get("id")
+    body = cf.body
+    leaves = result_leaves(body)
+    if len(leaves) != 1:
+        return False, "%d results" % len(leaves)
+    v = peel(leaves[0][0])
+    if not call_is(v, "Clone::clone"):
+        return False, "result is not a clone of the slot"
+    ix = peel(v["args"][0])
+    if not (call_is(ix, "Index::index") and len(ix["args"]) == 2):
+        return False, "not an indexed slot"
+    recv = peel(ix["args"][0])
+    if not (recv.get("k") == "Field" and var_id(recv["arg"]) == self_id):
+        return False, "slot vector is not self.0"
+    i1 = resolve(body, ix["args"][1])
+    if not (i1.get("k") == "Cast" and i1.get("ty") == "usize"):
+        return False, "index is not `.. as usize`"
+    i2 = resolve(body, i1["arg"])
+    if i2.get("k") == "Cast" and i2.get("from") == "char" and i2.get("ty") == "u32":
+        i2 = resolve(body, i2["arg"])
+    else:
+        return False, "index is not the char as u32"
+    if not (call_is(i2, "::expect") or call_is(i2, "::unwrap")):
+        return False, "first char is not unwrapped"
+    first = peel(i2["args"][0])
+    okfirst = (call_is(first, "Iterator::nth") and lit(first["args"][1]) == ("i", 0)) or call_is(first, "Iterator::next")
+    ch = peel(first["args"][0]) if okfirst else {}
+    if not (okfirst and call_is(ch, "::chars") and base_var(ch["args"][0], body) == key_id):
+        return False, "not the first char of the key"
+    return True, "self.0[key.chars().first as u32 as usize]"
+
+
+def alias_sources(root, vid, depth=4):
+    """Variables whose value `vid` is a plain copy of, through lets, tuple packing/unpacking, `Some(..)`/`Ok(..)` wrapping and `?`:
+         let (k, i) = { ..; Some((key, index)) }?;      ->  k is key, i is index
+         let k = key;                                    ->  k is key
+    -> set of variable ids (always contains vid)"""
+    out = {vid}
+    if depth <= 0:
+        return out
+    for blk in walk(root):
+        if blk.get("k") != "Block":
+            continue
+        for s in blk["stmts"]:
+            if s["k"] != "Let" or s.get("init") is None:
+                continue
+            path = _bind_path(s["pat"], vid)
+            if path is None:
+                continue
+            for leaf in _value_leaves(s["init"]):
+                src = _project(leaf, path)
+                sid = var_id(src) if src is not None else None
+                if sid is not None and sid not in out:
+                    out |= alias_sources(root, sid, depth - 1)
+    return out
+
+
+def _bind_path(pat, vid, path=()):
+    """position of the binding `vid` inside a (tuple) pattern: () for a plain binding, (0,), (1, 0) .. ; None if absent"""
+    p = strip_ref(pat)
+    if p.get("k") == "Bind" and p.get("id") == vid and not p.get("sub"):
+        return path
+    if p.get("k") == "Leaf" and str(p.get("ty", "")).startswith("("):
+        for s in p["sub"]:
+            r = _bind_path(s["p"], vid, path + (s["i"],))
+            if r is not None:
+                return r
+    return None
+
+
+def _value_leaves(e):
+    """the expressions a value can come from, through blocks/ifs/matches, `?`, and Some/Ok wrappers"""
+    e = peel(e)
+    k = e.get("k")
+    if k == "Try":
+        return _value_leaves(e["arg"])
+    if k == "Block":
+        if e.get("expr") is not None:
+            return _value_leaves(e["expr"])
+        return []
+    if k == "If":
+        return _value_leaves(e["then"]) + (_value_leaves(e["else"]) if e.get("else") is not None else [])
+    if k == "Match":
+        out = []
+        for a in e["arms"]:
+            out += _value_leaves(a["body"])
+        return out
+    if k == "Adt" and e.get("variant") in ("Some", "Ok") and e.get("fields"):
+        return _value_leaves(e["fields"][0]["e"])
+    return [e]
+
+
+def _project(e, path):
+    e = peel(e)
+    for i in path:
+        if e.get("k") != "Tuple" or i >= len(e["fields"]):
+            return None
+        e = peel(e["fields"][i])
+    return e
